@@ -56,7 +56,7 @@ ASSUMPTIONS = [
     'format gives an instruction of the target entry; free-text anchors are user error',
     '#LINK targets are pages that the same project writes; anchors are box-entry anchors, ids present in the custom page content, or '
     'decimal entry addresses listed on the memory map linked to',
-    'classes on which skool2html aborts or is known to fail (F29-F34, see AVOID) are excluded by construction; their reproducers are in corpus/C16',
+    'classes on which skool2html aborts or is known to fail (F41-F46, see AVOID) are excluded by construction; their reproducers are in corpus/C16',
     'with -w <subset> a link from a written page to a page kind that was not requested may resolve against the tree of the full run',
     'page/file paths configured in [Paths] are distinct (two pages configured to the same path is user error)',
     'a user-supplied #name on #R is honoured on entry pages and ignored on the single disassembly page (undocumented): landing on either the '
@@ -69,17 +69,17 @@ ASSUMPTIONS = [
 # Classes of input that are avoided by construction because skool2html is known to fail on them (see the final
 # report / known_findings.json). Set a flag to False once the defect is repaired to let the search cover the class.
 AVOID = {
-    'F29': True,    # #LINK(map#address) with a non-default AddressAnchor where the address is not converted
-    'F30': True,    # single-page mode: operand that addresses an @remote entry is linked to the current page
-    'F31': True,    # -j NAME with a StyleSheetPath directory that does not exist yet: FileNotFoundError
-    'F32': True,    # #LINK(ListItems/BulletPoints box page#anchor)() with blank link text: ValueError
-    'F33': True,    # #LINK(custom memory map) from a secondary disassembly whose entries would not appear on that map
-    'F34': True,    # #R addr@id used inside disassembly id itself (e.g. #R32768@main in the main skool file): "Address not found"
+    'F41': True,    # #LINK(map#address) with a non-default AddressAnchor where the address is not converted
+    'F42': False,   # (repaired in /repo) single-page mode: operand that addresses an @remote entry is linked to the current page
+    'F43': True,    # -j NAME with a StyleSheetPath directory that does not exist yet: FileNotFoundError
+    'F44': True,    # #LINK(ListItems/BulletPoints box page#anchor)() with blank link text: ValueError
+    'F45': True,    # #LINK(custom memory map) from a secondary disassembly whose entries would not appear on that map
+    'F46': True,    # #R addr@id used inside disassembly id itself (e.g. #R32768@main in the main skool file): "Address not found"
 }
 
 for _k in os.environ.get('VERIF_C16_COVER', '').split(','):
     if _k in AVOID:
-        AVOID[_k] = False        # e.g. VERIF_C16_COVER=F30 to try a repaired tree before editing the table above
+        AVOID[_k] = False        # e.g. VERIF_C16_COVER=F42 to try a repaired tree before editing the table above
 
 # ---------------------------------------------------------------------------
 # Drawing helpers (every choice is a Hypothesis draw; strategies are cached)
@@ -258,7 +258,7 @@ def gen_world(d):
     o['theme'] = d.choice([None, None, None, None, 'dark', 'wide'])
     o['join_css'] = d.choice([None, None, None, None, None, 'all.css'])
     o['css_path'] = d.choice(['css', 'static/css']) if d.chance(20) else None
-    if o['join_css'] and o['css_path'] and AVOID['F31']:
+    if o['join_css'] and o['css_path'] and AVOID['F43']:
         o['css_path'] = None
     o['css'] = d.choice([None, None, None, 'skoolkit.css;game.css', 'game.css'])
     o['js'] = d.choice([None, None, None, 'game.js', 'game.js;extra.js'])
@@ -468,7 +468,7 @@ class TextGen:
             entry = d.choice(live_entries(code))
             addr = d.choice(entry['instrs'])['addr']
             suffix = ''
-            if not AVOID['F34'] and d.chance(15):
+            if not AVOID['F46'] and d.chance(15):
                 suffix = '@' + here
             self._count('R:own')
         anchor = ''
@@ -505,7 +505,7 @@ class TextGen:
         d = self.d
         pages = self.w['pages']
         pid = d.choice(sorted(pages))
-        if pid == 'Custom' and not main_writer and AVOID['F33']:
+        if pid == 'Custom' and not main_writer and AVOID['F45']:
             # a secondary writer registers a custom memory map (path, title, link text) only if its own entries fit the map
             pid = 'MemoryMap'
         pg = pages[pid]
@@ -513,17 +513,17 @@ class TextGen:
         if pg['anchors'] and d.chance(55):
             a = d.choice(pg['anchors'])
             if pg['kind'] == 'map':
-                # converted to the AddressAnchor format by the main writer (F29: not by a secondary writer)
-                if self.eff_dec or main_writer or not AVOID['F29']:
+                # converted to the AddressAnchor format by the main writer (F41: not by a secondary writer)
+                if self.eff_dec or main_writer or not AVOID['F41']:
                     anchor = '#%d' % a
             elif pg['kind'] == 'omap':
-                if self.eff_dec or not AVOID['F29']:         # F29: never converted for other-code index pages
+                if self.eff_dec or not AVOID['F41']:         # F41: never converted for other-code index pages
                     anchor = '#%d' % a
             elif not str(a)[0].isupper():    # '#C000' in the expansion would be read as a macro named #C
                 anchor = '#%s' % a
         self._count('LINK:' + pg['kind'] + ('#' if anchor else ''))
         text = ''
-        if d.chance(70) or (anchor and pg.get('listbox') and AVOID['F32']):
+        if d.chance(70) or (anchor and pg.get('listbox') and AVOID['F44']):
             # explicit link text that tells the oracle where the link has to land: L:<page id>:<expected fragment>
             frag = anchor[1:]
             if frag and pg['kind'] in ('map', 'omap'):
@@ -616,7 +616,7 @@ def render_skool(d, w, tg, code):
     remote = [a for r in code['remote'] for a in r['addrs']]
     own_all = {i['addr'] for e in code['entries'] for i in e['instrs']}
     op_remote = remote
-    if o['single'] and AVOID['F30']:
+    if o['single'] and AVOID['F42']:
         op_remote = [a for a in remote if a in own_all]
     undeclared = [e['addr'] for c in w['codes'] if c is not code for e in c['entries'] if e['addr'] not in remote]
     label_n = [0]
@@ -630,7 +630,7 @@ def render_skool(d, w, tg, code):
         pools = [p for p in pools if p]
         t = d.choice(d.choice(pools))
         if t in remote and t not in own_all and t not in op_remote:
-            t = entry['addr']            # F30 avoided
+            t = entry['addr']            # F42 avoided
         return t
 
     if remote_lines and d.chance(50):
@@ -682,7 +682,7 @@ def render_skool(d, w, tg, code):
             while '{n}' in op:
                 n = d.int(0, 255)
                 while n in remote and n not in own_all and n not in op_remote:
-                    n += 1           # F30 avoided: a DEFW/LD value that happens to be a remote address
+                    n += 1           # F42 avoided: a DEFW/LD value that happens to be a remote address
                 op = op.replace('{n}', str(n), 1)
             if code['lower']:
                 op = op.lower()
@@ -909,7 +909,7 @@ F15_SIG = 'dup-id:single-page-entry-header+first-instruction'
 F28_SIG = 'dup-id:mid-block-comment+instruction'
 F29_SIG = 'fragment:link-map-anchor-not-converted'
 F30_SIG = 'fragment:single-page-operand-link-to-remote-entry'
-KNOWN_SIGS = {F15_SIG: 'F15', F28_SIG: 'F28', F29_SIG: 'F29', F30_SIG: 'F30'}
+KNOWN_SIGS = {F15_SIG: 'F15', F28_SIG: 'F28', F29_SIG: 'F41', F30_SIG: 'F42'}
 
 
 def _run(case, argv, tag):
@@ -1053,7 +1053,7 @@ def _landing_problems(tree, prefix, model, mpages):
                 exps = [e for e in exps if e]
                 if exps and not any(_lands_on(fname, ref, e) for e in exps):
                     if mp['single'] and ref.url.startswith('#') and all(e[0] != fname for e in exps):
-                        continue      # F30 class: reported by the link scan as a dangling fragment
+                        continue      # F42 class: reported by the link scan as a dangling fragment
                     probs.append(('landing:operand', '%s: operand link "%s" has href="%s", expected %s' % (
                         fname, text, ref.url, ' or '.join('%s#%s' % e[:2] for e in exps))))
     return probs
@@ -1304,11 +1304,11 @@ def known_class(sig, case):
     #      entry's first instruction <span id="ADDR"> the same id. Only that pair, only in the single disassembly page.
     # F28: the asm templates give a mid-block (or start) comment row <span id="ADDR"> and the instruction below it
     #      <span id="ADDR"> the same id. Only that pair.
-    # F29: #LINK(map#address): the address is converted to the AddressAnchor format only for main memory maps looked up in
+    # F41: #LINK(map#address): the address is converted to the AddressAnchor format only for main memory maps looked up in
     #      the current writer's own entries.
-    # F30: single-page mode; an operand that addresses an @remote entry is linked to "#ADDR" of the current page although
+    # F42: single-page mode; an operand that addresses an @remote entry is linked to "#ADDR" of the current page although
     #      the entry is on the other disassembly's page.
-    # F31-F34 abort the run (no tree to judge); see AVOID. All of F29-F34 are avoided by construction while AVOID[id] is set;
+    # F43-F46 abort the run (no tree to judge); see AVOID. All of F41-F46 are avoided by construction while AVOID[id] is set;
     # the signatures are recognised so that the reproducers in corpus/C16 replay as known findings.
     if sig in KNOWN_SIGS:
         return KNOWN_SIGS[sig]
@@ -1317,19 +1317,19 @@ def known_class(sig, case):
     texts = '\n'.join(case['files'].values())
     argv = case.get('argv', [])
     if sig == 'skool2html:FileNotFoundError@skool2html.py:copy_resources' and '-j' in argv and 'StyleSheetPath=' in texts:
-        return 'F31'
+        return 'F43'
     if sig == 'skool2html:ValueError@skoolhtml.py:expand_link' and re.search(r'#LINK\([^)]*#[^)]*\)\(\)', texts):
-        return 'F32'
+        return 'F44'
     if (sig.startswith('skool2html-error:Error while parsing #LINK macro: Unknown page ID') or sig == 'skool2html:KeyError@skoolhtml.py:expand_link') \
             and '[OtherCode:' in texts and '[MemoryMap:' in texts:
-        return 'F33'
+        return 'F45'
     if sig.startswith('skool2html-error:Error while parsing #R macro: Address not found') and re.search(r'#R[^@\s]*@main', case['files'].get(case.get('skool'), '')):
-        return 'F34'
+        return 'F46'
     return None
 
 
 MANIFEST_ENTRY = {
     'technique': 'validity-predicate oracle (html.parser link/anchor scan of the written directory tree) over Hypothesis-generated skool+ref projects and skool2html command lines',
     'level_text': 'For each generated project the real skool2html.main is run in a scratch directory; every relative href/src of every written HTML file must name a written or copied file and an existing id, ids must be unique per file, every entry and instruction of every disassembly must have its anchor on the page where the documentation places it, operand links and target-tagged #R/#LINK links must land on the anchor of their target, and the "Writing" lines must match the tree without repeats; -w subsets and second runs into the same directory are checked as well.',
-    'level_note': 'Sampled inputs: 1-3 disassemblies of 1-6 small entries (thorough: plus the shipped Hungry Horace example over a blank image). Generated #R/#LINK targets are restricted to what the documentation allows (existing instruction addresses, declared @remote addresses, anchors that evaluate to the entry address or spell an existing id). Known classes F15/F28 (duplicate ids produced by the stock templates) are counted and excluded; F29-F34 are avoided by construction (flags in AVOID).',
+    'level_note': 'Sampled inputs: 1-3 disassemblies of 1-6 small entries (thorough: plus the shipped Hungry Horace example over a blank image). Generated #R/#LINK targets are restricted to what the documentation allows (existing instruction addresses, declared @remote addresses, anchors that evaluate to the entry address or spell an existing id). Known classes F15/F28 (duplicate ids produced by the stock templates) are counted and excluded; F41-F46 are avoided by construction (flags in AVOID).',
 }
